@@ -1013,7 +1013,10 @@ def known_sigs():
 
 
 # ------------------------------------------------------------------ generators
-STR_POOL = ["a", "b", "c", "ab", "B", "10", "9", "é", "x y", "z9", "", "abc", "中", "it's \"q\"", " a,b ", "back\\slash", "line\nbreak"]
+# strings whose repr a text-level rewrite of a pickled / printed state could damage: separators with padding, brackets with blanks,
+# quote-comma-quote sequences, a literal backslash-n / backslash-quote, things that look like Python literals
+REPR_POOL = ["Washington, DC", "k: v", "( x", "y )", "a', 'b", 'a", "b', "back\\nslash", "it\\'s", "[1, 2]", "{'a': 1}", "None", "1, 2,  3", "(1, 2)", "x,y", ", "]
+STR_POOL = ["a", "b", "c", "ab", "B", "10", "9", "é", "x y", "z9", "", "abc", "中", "it's \"q\"", " a,b ", "back\\slash", "line\nbreak"] + REPR_POOL
 FILE_POOL = ["a", "b", "c", "ab", "B", "10", "9", "z9", "Yes", "no", "abc", "b2"]
 CSV_POOL = FILE_POOL + ["x y", "p,q", 'say "hi"', "é"]
 INT_POOL = [0, 1, 2, 3, 9, 10, -1, -2, 7, 100]
@@ -1142,7 +1145,10 @@ class Gen:
             lt = r.choice(["c", "c", "C"])
         elif kind == "tuple":
             # tuple-valued class labels (hashable, ordered): the model has no tuple atoms, so only the statement is checked
-            uni = [{"t": [ci(a), ci(b)]} for a, b in r.sample([(1, 2), (1, 3), (0, 5), (2, 1), (10, 9)], r.randint(1, 4))]
+            if r.chance(0.5):
+                uni = [{"t": [ci(a), ci(b)]} for a, b in r.sample([(1, 2), (1, 3), (0, 5), (2, 1), (10, 9)], r.randint(1, 4))]
+            else:
+                uni = [{"t": [cs(a), ci(b)]} for a, b in r.sample([("Washington, DC", 1), ("Washington,DC", 1), ("k: v", 2), ("a', 'b", 0), ("( x", 3), ("x", 1)], r.randint(1, 4))]
             Y = self.labels_from(uni, n)
             lt = r.choice([None, "c"])
             case["no_model"] = True
@@ -1643,6 +1649,11 @@ class C14(Property):
         cs_.append(dict(base, src="xy", label_type=None, rows=[[t(1), cs("it's \"q\"")], [t(2), cs(" a,b ")], [t(3), cs("x y")]]))
         cs_.append(dict(base, src="xy", label_type="m", rows=[[t(1), {"l": [cs("a b"), cs("c\"d")]}], [t(2), {"l": [cs("a b")]}]]))
         cs_.append(dict(base, src="xy", label_type="c", no_model=True, rows=[[t(1), {"t": [ci(1), ci(2)]}], [t(2), {"t": [ci(1), ci(3)]}]]))
+        # labels whose repr contains separator sequences (", " etc.): one case per reward class that carries such a state
+        cs_.append(dict(base, src="xy", label_type=None, rows=[[t(1), cs("Washington, DC")], [t(2), cs("Washington,DC")], [t(3), cs("k: v")], [t(4), cs("a', 'b")]]))    # BinaryReward (+ DiscreteReward over the actions)
+        cs_.append(dict(base, src="xy", label_type="m", rows=[[t(1), {"l": [cs("Washington, DC"), cs("x")]}], [t(2), {"l": [cs("Washington,DC")]}], [t(3), {"l": [cs('a", "b'), cs("( x"), cs("y )")]}]]))   # HammingReward
+        cs_.append(dict(base, src="xy", label_type="c", no_model=True, rows=[[t(1), {"t": [cs("Washington, DC"), ci(1)]}], [t(2), {"t": [cs("Washington,DC"), ci(1)]}]]))   # BinaryReward with a tuple state
+        cs_.append(dict(base, src="rows", sparse=False, label_col=1, label_type=None, take=None, rows=[[ci(1), cs("back\\nslash")], [ci(2), cs("it\\'s")], [ci(3), cs(", ")]]))
         for c in cs_:
             c.setdefault("take", None)
         return cs_
